@@ -199,7 +199,8 @@ def symbolic_unit(arg_):
     registry.import_all()
     lexsym.install_hash_abstraction()
     drv = SymDriver()
-    out = dict(logic=name, paths=0, decisions=0, queries=0, bad=[], samples=[], inexhausted=[], args=0)
+    out = dict(logic=name, paths=0, decisions=0, queries=0, bad=[], samples=[], inexhausted=[], args=0,
+               validated=0, mismatch=[])
     for argstr in shapes:
         lexsym.reset_cache()
         n = len(symbols(Argument(argstr))['c'])
@@ -228,6 +229,29 @@ def symbolic_unit(arg_):
                 continue
             rules |= set(p.value['rules'])
             classes.setdefault(p.value['cls'], p)
+        # translator validation: the concrete run on the witness of a path must
+        # give the outcome the path reports (first, middle and last path)
+        from pytableaux.lang import Constant
+        lexsym.reset_cache()
+        lexsym.remove_hash_abstraction()
+        try:
+            arg0 = Argument(argstr)
+            order = symbols(arg0)['c']
+            for p in ([paths[0], paths[len(paths) // 2], paths[-1]] if paths else []):
+                if p.kind != 'ok':
+                    continue
+                wit = model_values(ex.witness(p))
+                m = dict(a={}, v={}, p={}, c={})
+                for j, c in enumerate(order):
+                    m['c'][c] = Constant(int(wit.get(f'c{j}_i', 0)), int(wit.get(f'c{j}_s', 0)))
+                t = prover.build(name, apply_map(arg0, m), seed, max_steps=300)
+                out['validated'] += 1
+                if prover.outcome(t) != p.value['cls'] or len(t.history) != p.value['steps']:
+                    out['mismatch'].append(f'{argstr} {wit}: path says {p.value["cls"]}/{p.value["steps"]} steps, '
+                                           f'concrete run {prover.outcome(t)}/{len(t.history)}')
+        finally:
+            lexsym.reset_cache()
+            lexsym.install_hash_abstraction()
         real = {k: v for k, v in classes.items() if k != 'limit'}
         if len(real) > 1:
             wits = {k: model_values(ex.witness(p)) for k, p in real.items()}
@@ -273,7 +297,7 @@ def run(ctx):
         cres = pool.map(concrete_unit, units, chunksize=1)
         sres = ar.get()
     runs = refl = mono = ren = 0
-    paths = trans = sargs = 0
+    paths = trans = sargs = validated = 0
     samples = []
     for r in cres:
         runs += r['runs']
@@ -293,6 +317,9 @@ def run(ctx):
         sargs += r['args']
         if len(samples) < 6:
             samples += r['samples']
+        validated += r['validated']
+        for mm in r['mismatch'][:3]:
+            rep.harness_error(f'{r["logic"]}: proxy run and concrete run disagree: {mm}')
         for a in r['inexhausted']:
             rep.inconclusive.append(f'{r["logic"]} {a}: naming classes not exhausted')
         for b in r['bad']:
@@ -301,7 +328,7 @@ def run(ctx):
                           dict(kind=b['kind'], logic=r['logic'], argstr=b['argstr'], seed=ctx.seed,
                                witnesses=b['witnesses']))
     rep.coverage = dict(
-        states=paths + runs, transitions=trans + runs, traces_validated_against_impl=0, samples=samples,
+        states=paths + runs, transitions=trans + runs, traces_validated_against_impl=validated, samples=samples,
         symbolic_naming_arguments=sargs, symbolic_naming_paths=paths,
         concrete_runs=runs, reflexivity_cases=refl, monotonicity_cases=mono, concrete_renamings=ren,
         bounds=dict(symbolic='first-order shapes with 2-3 constants, all injective namings (index 0..3, any '
